@@ -353,6 +353,11 @@ def header_writer_rule(prog, res, rule='header-write', int_scale_ok=False):
                     bad = 'must be written as the constant %d' % want
                 continue
             base = 'this.' + fld['member']
+            if d.get('src_cond'):
+                off_ = [(c_, s_) for c_, s_ in d['src_cond'] if not (s_ == base or s_.startswith(base + '['))]
+                if off_:
+                    bad = 'emitted from %s when %s; the field is %s: what the member holds is not written in that case' % (off_[0][1], off_[0][0][:120], fld['member'])
+                continue
             if d.get('src_local') is not None:
                 # a local: its value must be the member (+1 for 1-based fields)
                 wantp = P.add({(base,): 1}, P.const(1 if fld.get('one_based') else 0))
@@ -604,6 +609,11 @@ class Checker:
     def slot_patch(self, slot, var, width, value=None):
         """tell -> end ; seek var ; write(width') ; seek end"""
         t = self.take(('slot',))
+        ends = [t[2]] if t and t[1] == 'tell' else []
+        # remembering the position again (e.g. inside a helper that does the patch) does not move the stream
+        while t and t[1] == 'tell' and self.peek() is not None and self.peek()[0] == 'slot' and self.peek()[1] == 'tell':
+            t = self.take(('slot',))
+            ends.append(t[2])
         s1 = self.take(('slot',))
         if not t or not s1 or t[1] != 'tell' or s1[1] != 'seek':
             self.bad(slot + '.patch', self.where(t or s1), 'expected tell(end) / seek(slot) before the back-patch')
@@ -623,6 +633,8 @@ class Checker:
             self.bad(slot + '.patch', d['where'], 'patch writes %s byte(s) into a %d-byte slot' % (pshow(w), width))
             return None
         s2 = self.take(('slot',))
+        if s2 and s2[1] == 'seek' and s2[2] in ends:
+            end = s2[2]
         if not s2 or s2[1] != 'seek' or s2[2] != end:
             self.bad(slot + '.patch', self.where(s2) if s2 else d['where'], 'stream is not re-positioned to the remembered end (%s) after the patch' % end)
             return None
@@ -1578,6 +1590,46 @@ def interval_of_padding(expr):
     return None, None
 
 
+_PATCHES = {}
+
+
+def patch_guard_rule(prog, res, rule='capacity-guard'):
+    """a value that is back-patched into a slot may be refused only beyond the capacity of that slot: a guard
+    `if (X > K) throw` on the patched value (in the function that performs the patch, e.g. a helper shared by
+    several slots) needs K >= 2^(8 x slot width) - 1"""
+    from result import Result as _R
+    tmp = _R('x', 'quick', '')
+    parameters_writer_rule(prog, tmp, 'x')
+    n = 0
+    for slot, (info, width) in sorted((_PATCHES.get(id(prog)) or {}).items()):
+        if not info:
+            continue
+        d = info['item']
+        fn_ = d['fn']
+        Rf = Renderer(fn_)
+        names = {d.get('src'), 'local:' + str(d.get('src_local'))}
+        cap = (1 << (8 * width)) - 1
+        for i in fn_.all_nodes({'IfStmt'}):
+            if not any(fn_.nodes[x]['k'] == 'CXXThrowExpr' for x in fn_.descendants(i['then'])):
+                continue
+            c = fn_.nodes[fn_.strip(i['cond'], 'all')]
+            if c['k'] != 'BinaryOperator' or c['op'] not in ('>', '>='):
+                continue
+            l, r = Rf.render(c['ch'][0]), fn_.nodes[fn_.strip(c['ch'][1], 'all')]
+            l0 = re.sub(r'^\((?:unsigned |signed )?\w[\w ]*\)', '', l)
+            if l0 not in names or 'cv' not in r:
+                continue
+            kmax = int(r['cv']) + (0 if c['op'] == '>' else -1)
+            n += 1
+            inst = 'guard on the value patched into %s' % slot
+            if kmax < cap:
+                res.viol(rule, inst, fn_.loc(i['id']), 'saving is refused when %s exceeds %d, but the value is patched into the %d-byte %s slot, which holds values up to %d: content within the format\'s '
+                         'capacity is no longer saved' % (l0, kmax, width, slot, cap), function=fn_.sig, expr='patch-guard:' + slot)
+            else:
+                res.ok(rule, inst, fn_.loc(i['id']), 'limit %d >= capacity of the %d-byte slot' % (kmax, width), function=fn_.sig, expr='patch-guard:' + slot)
+    return n
+
+
 def parameters_writer_rule(prog, res, rule='parameters-write'):
     spec = load_spec()
     f = prog.fn('ezc3d::ParametersNS::Parameters::write', nparams=1)
@@ -1644,9 +1696,11 @@ def parameters_writer_rule(prog, res, rule='parameters-write'):
             if not c.failed:
                 ck.ok('padding', ck.where(lp), '512 - (position %% 512) zero bytes: in [1,512], so the terminator byte is always present and the section ends on a block boundary')
     # back-patches
+    p1 = None
     if var is not None:
         p1 = ck.slot_patch('block_count', var, 1)
     p2 = ck.slot_patch('data_start', 'local:dataStartPosition', 2)
+    _PATCHES[id(prog)] = {'block_count': (p1, 1), 'data_start': (p2, 2)}
     ck.done()
     # the DATA_START slot is opened by Parameter::write through the out parameter (checked there)
     return p2
@@ -1767,7 +1821,9 @@ def frame_reader_rule(prog, res, rule='frame-read'):
     helpers spliced in; a structure the rule does not read is UNDECIDED."""
     f = prog.fn('ezc3d::DataNS::Data::Data', nparams=1)
     seq = io_only(codec.Extractor(prog, 'r').seq_of(f))
-    loops = [it for it in seq if it[0] == 'loop']
+    def has_read(it):
+        return any(isinstance(x, tuple) and x[0] == 'io' and x[1].get('k') in codec.READERS for x in _walk({'items': [it]}))
+    loops = [it for it in seq if it[0] == 'loop' and has_read(it)]
     inst = 'frame.layout'
     FRAMES = ('arg0._header.nbFrames()',)
     if len(loops) != 1:
@@ -1834,6 +1890,9 @@ def frame_reader_rule(prog, res, rule='frame-read'):
     # points: header point count x (x, y, z, residual)
     NP = ('arg0._header._nb3dPoints',)
     okp = pshow(pl[1]) in NP
+    lsz = _local_list_size(f, pshow(pl[1]))
+    if lsz and lsz[0] == 'exact' and lsz[1] in NP + ('arg0._header.nb3dPoints()',):
+        okp = True
     reads = [it[1] for it in io_only(pl[3]) if it[0] == 'io']
     comps = []
     for d in reads:
@@ -1842,6 +1901,9 @@ def frame_reader_rule(prog, res, rule='frame-read'):
     want = [('x', 'readFloat', 4), ('y', 'readFloat', 4), ('z', 'readFloat', 4), ('residual', 'readFloat', 4)]
     if okp and comps == want:
         res.ok(rule, 'frame.point', reads[0]['where'], 'points x (x, y, z, residual) as 4 REAL each', function=f.sig, expr='frame.point')
+    elif lsz and lsz[0] == 'labels' and comps == want:
+        res.viol(rule, 'frame.point', f.loc(pl[4]), 'the point loop runs once per entry of the list %s, which holds the %s:LABELS of the file (however it is padded afterwards): a file with more labels than points '
+                 'decodes more points per frame than it stores; specified the header point count' % (pshow(pl[1]), lsz[1]), function=f.sig, expr='frame.point')
     elif not recognisable(pl) or len(reads) != len(io_only(pl[3])) or any(not isinstance(c_[0], str) or c_[0] not in ('x', 'y', 'z', 'residual') for c_ in comps):
         res.undecided(rule, 'frame.point', f.loc(pl[4]), 'point loop runs %s times reading %s: not a form the rule tabulates [shape not read by the rule]' % (pshow(pl[1]), comps), function=f.sig, expr='frame.point')
     else:
@@ -1861,6 +1923,15 @@ def frame_reader_rule(prog, res, rule='frame-read'):
     # analogs: sub-frame major
     oka = pshow(al[1]) == 'arg0._header._nbAnalogByFrame'
     inner = [it for it in io_only(al[3]) if it[0] == 'loop']
+    if oka and len(inner) == 1:
+        lsz = _local_list_size(f, pshow(inner[0][1]))
+        if lsz and lsz[0] == 'exact' and lsz[1] in ('arg0._header.nbAnalogs()',):
+            inner = [('loop', {('arg0._header.nbAnalogs()',): 1}) + tuple(inner[0][2:])]
+        elif lsz and lsz[0] == 'labels':
+            res.viol(rule, 'frame.analog', f.loc(inner[0][4]), 'the channel loop runs once per entry of the list %s, which holds the %s:LABELS of the file (however it is padded afterwards): a file with more labels than '
+                     'channels decodes more samples per sub-frame than it stores; specified the header channel count' % (pshow(inner[0][1]), lsz[1]), function=f.sig, expr='frame.analog')
+            storage_rule(prog, res, rule, f, fl, pl, al)
+            return
     if oka and len(inner) == 1 and pshow(inner[0][1]) == 'arg0._header.nbAnalogs()':
         rd = [it[1] for it in io_only(inner[0][3]) if it[0] == 'io']
         if len(rd) == 1 and rd[0]['k'] == 'readFloat' and re.match(r'^local:\w+(?:@\d+)?\.data\(\)$', rd[0].get('dest') or ''):
@@ -1874,8 +1945,48 @@ def frame_reader_rule(prog, res, rule='frame-read'):
     else:
         res.undecided(rule, 'frame.analog', f.loc(al[4]), 'analog samples must be read sub-frame major: for each of header.nbAnalogByFrame sub-frames, header.nbAnalogs channels; found %s / %s [shape not read by the rule]' %
                       (pshow(al[1]), [pshow(x[1]) for x in inner]), function=f.sig, expr='frame.analog')
+    # the REAL read from the file is the value that is stored (the writers emit the stored value as is)
+    allreads = [d_ for d_ in _walk({'then': io_only(pl[3]), 'else': io_only(al[3])}) if isinstance(d_, tuple) and d_[0] == 'io' and d_[1].get('k') in codec.READERS]
+    tr = [(d_[1], [p_ for p_ in (d_[1].get('post') or []) if p_[0] != 'cast']) for d_ in allreads]
+    tr = [(d_, p_) for d_, p_ in tr if p_]
+    if tr:
+        res.viol(rule, 'frame.value-as-stored', tr[0][0]['where'], 'the value read for %s is transformed before it is stored (%s) while the writer emits the stored value unchanged: a saved value does not come back' %
+                 (tr[0][0].get('dest'), tr[0][1]), function=f.sig, expr='frame.value-as-stored')
+    elif allreads:
+        res.ok(rule, 'frame.value-as-stored', allreads[0][1]['where'], '%d reads reach their setter without arithmetic' % len(allreads), function=f.sig, expr='frame.value-as-stored')
     # storage: element i of the frame's points / (k, i) of its analogs, frame j
     storage_rule(prog, res, rule, f, fl, pl, al)
+
+
+def _local_list_size(f, bound):
+    """bound = 'local:X.size' for a local vector X of f: ('exact', rendering of E) when the last thing that changes the
+    size of X is X.resize(E); ('labels', GROUP) when X is assigned from <GROUP>:LABELS and not resized to something else
+    afterwards; None otherwise"""
+    m = re.match(r'^local:(\w+)\.size$', bound or '')
+    if not m:
+        return None
+    R = Renderer(f)
+    X = 'local:' + m.group(1)
+    last = None
+    labels = None
+    for n in f.nodes:
+        if n['k'] == 'CXXMemberCallExpr' and n.get('obj') is not None and R.render(n['obj']) == X and n['callee']['name'] in ('resize', 'push_back', 'emplace_back', 'clear', 'assign', 'insert', 'erase', 'pop_back'):
+            last = (n['callee']['name'], [R.render(a) for a in f.call_args(n)])
+        if n['k'] == 'CXXOperatorCallExpr' and n.get('op') == '=' and n.get('args') and R.render(n['args'][0]) == X:
+            r = R.render(n['args'][1])
+            last = ('=', [r])
+            mm = re.match(r'^arg0\._parameters\.group\("(\w+)"\)\.parameter\("LABELS"\)\.valuesAsString\(\)$', r)
+            if mm:
+                labels = mm.group(1)
+    if last and last[0] == 'resize' and len(last[1]) >= 1:
+        return ('exact', uncast_render(last[1][0]))
+    if labels:
+        return ('labels', labels)
+    return None
+
+
+def uncast_render(r):
+    return re.sub(r'^\((?:unsigned |signed )?\w[\w ]*\)(?=[\w(])', '', r)
 
 
 def storage_rule(prog, res, rule, f, fl, pl, al):
